@@ -12,7 +12,7 @@
 (* the VIEW.  Every transition TLC explores is printed (EmitEdge) and      *)
 (* executed once on the real server from a snapshot of its source state.   *)
 (*                                                                         *)
-(* Abstract values: password classes p1/p2 ("none": no hash stored,        *)
+(* Abstract values: password classes p1 / e (empty string) ("none": no hash stored,        *)
 (* "absent": no such user), attribute versions 1/2 of a user record (what  *)
 (* "describes the user as stored at login" is judged on), entity IDs       *)
 (* e1/e2, service names, one shortcut, session slots.                      *)
@@ -22,7 +22,7 @@ EXTENDS Integers, Sequences, FiniteSets, TLC, Json
 CONSTANTS Users, SvcNames, Eids, Shortcuts, MaxSess, WithFaults
 
 Slots   == 1..MaxSess
-Pws     == {"p1", "p2"}
+Pws     == {"p1", "e"}        \* "e" is the empty password: a legal value of the password field
 Cookies == {"none", "forged"} \cup { "k" \o ToString(k) : k \in Slots }
 SlotOf(ck) == CHOOSE k \in Slots : ck = "k" \o ToString(k)
 IsSlot(ck) == \E k \in Slots : ck = "k" \o ToString(k)
